@@ -38,6 +38,11 @@ pub enum Op {
     SApply(u32),
     SFeed(u32),
     SMake(u32),
+    // shareability family: calls on ONE connection shared between the threads (Tally / TallySync)
+    TBump(u32),
+    TRecord(u32),
+    TTotal,
+    TRecorded,
     // self-test only: harness-owned shuttle mutexes / a deliberately racy counter
     LockAB,
     LockBA,
@@ -57,6 +62,17 @@ pub struct Scenario {
     pub thorough_only: bool,
     /// larger harness: bounded exploration only
     pub large: bool,
+    /// the threads share one connection of this kind (only if the compiler lets safe code do so)
+    pub share: Share,
+}
+
+#[derive(Clone, Copy, Debug, PartialEq)]
+pub enum Share {
+    No,
+    /// `AbiConnection<dyn Tally>`, `Tally: Send` but not Sync, Cell/RefCell state
+    Tally,
+    /// `AbiConnection<dyn TallySync>`, `TallySync: Send + Sync`, atomic state (positive control)
+    TallySync,
 }
 
 impl Scenario {
@@ -90,6 +106,7 @@ fn scn(id: &'static str, title: &'static str, setup: Vec<Op>, threads: Vec<Vec<O
         needs_plugin: false,
         thorough_only: false,
         large: false,
+        share: Share::No,
     }
 }
 
@@ -197,6 +214,22 @@ pub fn all() -> Vec<Scenario> {
     s.large = true;
     s.thorough_only = true;
     v.push(s);
+    for (id, share, title) in [
+        ("Y1", Share::Tally, "one connection to a Send-but-not-Sync implementation (Cell read, scheduling point, write) shared by two threads, if safe code can share it"),
+        ("YC", Share::TallySync, "positive control: one connection to a Send+Sync implementation (atomic counter) shared by two threads"),
+    ] {
+        let mut s = scn(id, title, vec![], vec![vec![TBump(1), TBump(2)], vec![TBump(10)]], vec![TTotal]);
+        s.share = share;
+        v.push(s);
+    }
+    for (id, share, title) in [
+        ("Y2", Share::Tally, "as Y1 with a RefCell borrow held across the scheduling point"),
+        ("YC2", Share::TallySync, "positive control for Y2 (atomic state)"),
+    ] {
+        let mut s = scn(id, title, vec![], vec![vec![TRecord(1)], vec![TRecord(2), TBump(5)]], vec![TRecorded, TTotal]);
+        s.share = share;
+        v.push(s);
+    }
     v.push(scn(
         "R1",
         "single thread: an implementation's method, and a caller's closure run by the callee, create further connections",
@@ -382,6 +415,7 @@ pub fn exec_op(op: &Op, ctx: &mut Ctx, env: &Env) -> String {
                 format!("{},{}", s.next(), s.next())
             })
             .unwrap_or(NO_CONN.into()),
+        TBump(_) | TRecord(_) | TTotal | TRecorded => "not-a-ctx-op".into(),
         LockAB => {
             let _a = env.a.lock().unwrap();
             let _b = env.b.lock().unwrap();
@@ -418,6 +452,11 @@ pub enum Mode {
 
 /// The body of one execution (runs as shuttle's main task).
 pub fn run_body(s: &Scenario, mode: &Mode, plugin: &Option<String>) -> Obs {
+    match s.share {
+        Share::No => {}
+        Share::Tally => return run_shared_tally(s, mode),
+        Share::TallySync => return run_shared_tally_sync(s, mode),
+    }
     let mut obs = Obs::default();
     let mut main_ctx = Ctx::default();
     let mut env = Env {
@@ -479,6 +518,93 @@ pub fn run_body(s: &Scenario, mode: &Mode, plugin: &Option<String>) -> Obs {
     drop(main_ctx);
     drop(env);
     obs
+}
+
+fn tally_op(c: &AbiConnection<dyn Tally>, op: &Op) -> String {
+    match op {
+        Op::TBump(b) => c.bump(*b).to_string(),
+        Op::TRecord(v) => c.record(*v).to_string(),
+        Op::TTotal => c.total().to_string(),
+        Op::TRecorded => c.recorded().to_string(),
+        _ => "unsupported".into(),
+    }
+}
+fn tally_sync_op(c: &AbiConnection<dyn TallySync>, op: &Op) -> String {
+    match op {
+        Op::TBump(b) => c.bump(*b).to_string(),
+        Op::TRecord(v) => c.record(*v).to_string(),
+        Op::TTotal => c.total().to_string(),
+        Op::TRecorded => c.recorded().to_string(),
+        _ => "unsupported".into(),
+    }
+}
+
+pub const NOT_SHAREABLE: &str = "not_shareable";
+
+/// Body of the shareability scenarios, expanded once per CONCRETE connection type (inside a
+/// generic function the resolution below would always pick the fallback). `Sharer::run_shared`
+/// resolves at compile time either to the inherent method (exists only for `C: Send + Sync`;
+/// spawns shuttle threads that all use the same `Arc<C>`) or to the trait default that answers
+/// `None`: then safe code cannot make overlapping calls on the connection at all and the
+/// scenario is trivially fine.
+macro_rules! shared_body {
+    ($s:expr, $mode:expr, $new:expr, $op:path, $conn:ty) => {{
+        #[allow(unused_imports)]
+        use crate::ifaces::NotShareable;
+        let s: &Scenario = $s;
+        let mut obs = Obs::default();
+        let conn: $conn = match $new {
+            Ok(c) => c,
+            Err(e) => {
+                obs.setup.push(format!("err {}", err_kind(&e)));
+                return obs;
+            }
+        };
+        obs.setup.push(format!("ok {}", template_facts(&conn)));
+        let conn = Arc::new(conn);
+        match $mode {
+            Mode::Sequential(order) => {
+                obs.results = vec![vec![]; s.threads.len()];
+                for &i in order {
+                    obs.results[i] = s.threads[i].iter().map(|o| $op(&conn, o)).collect();
+                }
+            }
+            Mode::Concurrent => {
+                let bodies: Vec<Body<$conn>> = s
+                    .threads
+                    .iter()
+                    .map(|ops| {
+                        let ops = ops.clone();
+                        let b: Body<$conn> = Box::new(move |c: &$conn| ops.iter().map(|o| $op(c, o)).collect());
+                        b
+                    })
+                    .collect();
+                match Sharer::<$conn>(std::marker::PhantomData).run_shared(&conn, bodies) {
+                    Some(r) => obs.results = r,
+                    None => {
+                        // the compiler does not let safe code share this connection: the only
+                        // executions that exist are the sequential ones
+                        crate::shim::note_impl(NOT_SHAREABLE);
+                        obs.results = vec![vec![]; s.threads.len()];
+                        for i in 0..s.threads.len() {
+                            obs.results[i] = s.threads[i].iter().map(|o| $op(&conn, o)).collect();
+                        }
+                    }
+                }
+            }
+        }
+        for o in &s.post {
+            obs.post.push($op(&conn, o));
+        }
+        obs
+    }};
+}
+
+fn run_shared_tally(s: &Scenario, mode: &Mode) -> Obs {
+    shared_body!(s, mode, new_tally(), tally_op, AbiConnection<dyn Tally>)
+}
+fn run_shared_tally_sync(s: &Scenario, mode: &Mode) -> Obs {
+    shared_body!(s, mode, new_tally_sync(), tally_sync_op, AbiConnection<dyn TallySync>)
 }
 
 pub fn permutations(n: usize) -> Vec<Vec<usize>> {
